@@ -12,6 +12,7 @@ THEOREMS = {
     "C05": ["C05_shape_box", "C05_range_is_box", "C05_header_box", "C05_header_absent"],
     "C06": ["C06_typed_vs_generic", "C06_never_wrong_type", "C06_type_identity", "C06_dispatch", "C06_try_from",
             "C06_from_tryfrom", "C06_bulk"],
+    "C07": ["C07_open", "C07_index_parse", "C07_no_panic", "C07_record", "C07_bounded_index", "C07_bounded_noindex"],
     "C03": ["C03_record", "C03_decodes_conformant"],
     "C09": ["C09_finalize_irrelevant", "C09_files", "C09_finalize_complete", "C09_clean_finalize_silent"],
     "C10": ["C10_reject", "C10_erase"],
@@ -24,7 +25,9 @@ THEOREMS = {
 # theorems whose statement mentions the orientation test (Flocq binary64 arithmetic) inherit the four
 # classical-reals axioms of the standard library through Flocq's definitions
 FLOCQ = set(STDLIB_AXIOMS_ALLOWED)
-AXIOMS = {"C06_typed_vs_generic": FLOCQ, "C06_never_wrong_type": FLOCQ, "C06_dispatch": FLOCQ,
+AXIOMS = {"C07_open": FLOCQ, "C07_index_parse": FLOCQ, "C07_no_panic": FLOCQ, "C07_record": FLOCQ, "C07_bounded_index": FLOCQ,
+          "C07_bounded_noindex": FLOCQ,
+          "C06_typed_vs_generic": FLOCQ, "C06_never_wrong_type": FLOCQ, "C06_dispatch": FLOCQ,
           "C05_shape_box": FLOCQ,
           "C01_roundtrip_index": FLOCQ, "C04_shx_layout": set(), "C04_entries_address_records": FLOCQ, "C04_reader": FLOCQ,
           "C04_hint_and_count": FLOCQ, "C14_index_governs": FLOCQ, "C14_iteration_is_index_order": FLOCQ, "C14_nth_agrees": FLOCQ,
